@@ -1250,3 +1250,145 @@ Lemma replace_history_example :
   | Faulted _ _ => false
   end = true.
 Proof. vm_compute. reflexivity. Qed.
+
+(* ------------------------------------------------------------------------------------------ *)
+(* Server.shutdown with n Listeners: it returns, for every n                                    *)
+Lemma sumw_set_nth : forall l k a b,
+  nth_error l k = Some a -> sumw (set_nth k b l) + lw a = sumw l + lw b.
+Proof.
+  induction l; intros [|k] x b H; simpl in *; try discriminate.
+  - inversion H; subst. lia.
+  - specialize (IHl _ _ b H). lia.
+Qed.
+Lemma length_set_nth' {A} : forall (l : list A) i x, length (set_nth i x l) = length l.
+Proof. induction l; intros [|i] x; simpl; auto. Qed.
+Lemma nth_error_lt {A} (l : list A) k a : nth_error l k = Some a -> k < length l.
+Proof. intros H. apply nth_error_Some. congruence. Qed.
+
+(* every step that is taken lowers the measure and keeps the number of Listeners *)
+Lemma ns_step_mu m t s s' :
+  ns_step m t s = Some s' -> ns_mu s' < ns_mu s /\ length (ns_ls s') = length (ns_ls s).
+Proof.
+  destruct s as [c ls b sp f]. unfold ns_step, ns_mu; simpl. destruct t as [|k].
+  - destruct f; [discriminate|]. destruct c; simpl.
+    + destruct (nth_error ls sp) as [[]|] eqn:E.
+      * destruct (is_new m); [|discriminate]. destruct b; [discriminate|].
+        intros H; inversion H; subst; simpl. split; auto; lia.
+      * destruct (is_new m); [|discriminate]. destruct b; [discriminate|].
+        intros H; inversion H; subst; simpl. split; auto; lia.
+      * intros H; inversion H; subst; simpl. apply nth_error_lt in E. split; auto; lia.
+      * intros H; inversion H; subst; simpl. split; auto; lia.
+    + intros H; inversion H; subst; simpl. split; auto; lia.
+  - destruct (nth_error ls k) as [[]|] eqn:E; try discriminate.
+    + destruct c; [|discriminate]. intros H; inversion H; subst; simpl.
+      pose proof (sumw_set_nth _ _ _ LSend E). rewrite length_set_nth'. simpl in *.
+      destruct f; split; auto; lia.
+    + destruct (b <? ns_cap); [|discriminate]. intros H; inversion H; subst; simpl.
+      pose proof (sumw_set_nth _ _ _ LEnd E). rewrite length_set_nth'. simpl in *.
+      destruct f; split; auto; try lia.
+Qed.
+
+(* the repaired shutdown is never stuck: while it has not finished some thread can step *)
+Lemma ns_no_deadlock s :
+  ns_fin s = false -> exists t, In t (ns_threads (length (ns_ls s))) /\ ns_step New t s <> None.
+Proof.
+  destruct s as [c ls b sp f]; simpl. intros ->.
+  assert (Z0 : In 0 (ns_threads (length ls))) by (unfold ns_threads; apply in_seq; lia).
+  destruct c; [|exists 0; split; auto; simpl; discriminate].
+  destruct (nth_error ls sp) as [p|] eqn:E.
+  - pose proof (nth_error_lt _ _ _ E) as L.
+    assert (ZS : In (S sp) (ns_threads (length ls))) by (unfold ns_threads; apply in_seq; lia).
+    destruct p.
+    + exists (S sp). split; auto. simpl. rewrite E. discriminate.
+    + destruct (b <? ns_cap) eqn:B.
+      * exists (S sp). split; auto. simpl. rewrite E, B. discriminate.
+      * exists 0. split; auto. simpl. rewrite E. apply Nat.ltb_ge in B. unfold ns_cap in B.
+        destruct b; [lia|discriminate].
+    + exists 0. split; auto. simpl. rewrite E. discriminate.
+  - exists 0. split; auto. simpl. rewrite E. discriminate.
+Qed.
+
+Lemma ns_do_mu m t s : ns_mu (ns_do m t s) <= ns_mu s /\ length (ns_ls (ns_do m t s)) = length (ns_ls s).
+Proof.
+  unfold ns_do. destruct (ns_step m t s) eqn:E; [|auto].
+  destruct (ns_step_mu _ _ _ _ E). split; auto; lia.
+Qed.
+
+Lemma ns_run_mu_le m : forall ts s, ns_mu (ns_run m ts s) <= ns_mu s.
+Proof.
+  induction ts as [|a ts IH]; intros s; simpl; auto.
+  destruct (ns_do_mu m a s). specialize (IH (ns_do m a s)). lia.
+Qed.
+
+(* one round over a list of threads: the measure drops, or nothing moved and every thread of
+   the list was blocked *)
+Lemma ns_round m : forall ts s,
+  ns_mu (ns_run m ts s) < ns_mu s \/
+  (ns_run m ts s = s /\ forall t, In t ts -> ns_step m t s = None).
+Proof.
+  induction ts as [|t ts IH]; intros s; simpl.
+  - right. split; auto. intros ? [].
+  - unfold ns_do. destruct (ns_step m t s) as [s'|] eqn:E.
+    + left. destruct (ns_step_mu _ _ _ _ E) as [L _].
+      pose proof (ns_run_mu_le m ts s'). lia.
+    + destruct (IH s) as [L|[R B]]; [left; auto|].
+      right. split; [exact R|]. intros x Hx. destruct Hx as [Hx|Hx]; [subst x; exact E | auto].
+Qed.
+
+Lemma ns_run_len m : forall ts s, length (ns_ls (ns_run m ts s)) = length (ns_ls s).
+Proof.
+  induction ts; intros; simpl; auto. rewrite IHts. apply ns_do_mu.
+Qed.
+
+Lemma ns_fin_mu s : ns_mu s = 0 -> ns_fin s = true.
+Proof. unfold ns_mu. destruct (ns_fin s); auto. lia. Qed.
+
+Lemma ns_fin_keeps m : forall ts s, ns_fin s = true -> ns_fin (ns_run m ts s) = true.
+Proof.
+  induction ts as [|t ts IH]; intros s F; simpl; auto. apply IH.
+  unfold ns_do, ns_step. destruct s as [c ls b sp f]; simpl in *; subst f.
+  destruct t; simpl; auto.
+  destruct (nth_error ls t) as [[]|]; simpl; auto.
+  - destruct c; auto.
+  - destruct (b <? ns_cap); auto.
+Qed.
+
+Lemma ns_run_app m : forall l1 l2 x, ns_run m (l1 ++ l2) x = ns_run m l2 (ns_run m l1 x).
+Proof. induction l1; intros; simpl; auto. Qed.
+
+Lemma ns_rounds : forall k s,
+  ns_fin (ns_run New (repeat_sched k (ns_threads (length (ns_ls s)))) s) = true \/
+  ns_mu (ns_run New (repeat_sched k (ns_threads (length (ns_ls s)))) s) <= ns_mu s - k.
+Proof.
+  induction k; intros s; cbn [repeat_sched ns_run]; [right; lia|].
+  rewrite ns_run_app.
+  set (s1 := ns_run New (ns_threads (length (ns_ls s))) s).
+  assert (L1 : length (ns_ls s1) = length (ns_ls s)) by apply ns_run_len.
+  specialize (IHk s1). rewrite L1 in IHk.
+  destruct IHk as [IHk|IHk]; [left; auto|].
+  destruct (ns_round New (ns_threads (length (ns_ls s))) s) as [D|[R B]].
+  - fold s1 in D. right. lia.
+  - fold s1 in R. destruct (ns_fin s) eqn:F.
+    + left. apply ns_fin_keeps. rewrite R. auto.
+    + destruct (ns_no_deadlock s F) as (t & T1 & T2). elim T2. auto.
+Qed.
+
+(* Server.shutdown (hence Server.Close and a cancelled context) finishes for every number of
+   Listeners under the fair round-robin schedule; with [ns_no_deadlock] and [ns_step_mu]: under
+   every schedule that keeps scheduling a thread that can step *)
+Lemma server_close_returns_n n :
+  ns_fin (ns_run New (ns_fair n) (ns_init n)) = true.
+Proof.
+  unfold ns_fair.
+  pose proof (ns_rounds (ns_mu (ns_init n)) (ns_init n)) as R.
+  assert (L : length (ns_ls (ns_init n)) = n) by (simpl; apply repeat_length).
+  rewrite L in R. destruct R as [R|R]; auto. apply ns_fin_mu. lia.
+Qed.
+
+(* the old shutdown with 17 Listeners: all have stopped or try to, 16 names fill the channel,
+   the 17th Listener blocks sending, shutdown waits for it: nobody can move *)
+Definition sched_many_listeners : list nat := [0] ++ flat_map (fun k => [k; k]) (seq 1 17) ++ rep 17 0.
+Lemma many_listeners_refuted :
+  ns_stuck Old (ns_run Old sched_many_listeners (ns_init 17)) = true /\
+  ns_stuck New (ns_run New sched_many_listeners (ns_init 17)) = false.
+Proof. vm_compute. auto. Qed.
